@@ -13,6 +13,9 @@ mod oracle;
 mod props;
 mod refstun;
 mod rng;
+mod server;
+mod sim;
+mod walk;
 
 use ctx::{Ctx, Tier};
 use std::collections::HashSet;
